@@ -381,6 +381,8 @@ def plan(tier, seed):
     pl.cases = cache_cases() + visitor_cases() + transformer_cases()
     pl.canaries = [canary()]
     pl.finite = [("C08-D/dispatch-table", dispatch_table), ("C08-U/uniform-loops", lambda: uniform.check(LOOPS))]
+    from vfkit import lean as _lean
+    pl.finite.append(("A5/Lean re-check of the lifting lemmas for operand runs", _lean.lemma_check))
     pl.functions = ["luqum.visitor.TreeVisitor._get_method", "luqum.visitor.TreeVisitor.visit",
                     "luqum.visitor.TreeVisitor.visit_iter", "luqum.visitor.TreeVisitor.child_context",
                     "luqum.visitor.TreeVisitor.generic_visit", "luqum.visitor.TreeTransformer._clone_item",
